@@ -370,6 +370,66 @@ def run(chk):
                                      f'{c.name}.{mname} keeps its result in `self.{view}` (computed from {sorted(sources)}), but {k.name}.{wname} changes '
                                      f'{sorted(written)} without resetting it on every path: after another seat plays, the stale set is handed out '
                                      f'(e.g. the whole hand while the seat must follow suit)')
+        # ---- M4b: a piece of module-level data aliased into instance state that is then mutated in place ------------------------------
+        def shared_data(v):
+            if isinstance(v, (ast.List, ast.Dict, ast.Set, ast.ListComp, ast.DictComp, ast.SetComp)):
+                return True
+            if isinstance(v, ast.Call):
+                f_ = ast.unparse(v.func)
+                return f_.split('.')[0] in ('np', 'numpy') or f_ in ('list', 'dict', 'set', 'defaultdict', 'deque', 'bytearray')
+            return False
+        shared2 = {n for n, v in mod.constants.items() if shared_data(v)}
+        if shared2:
+            for c in mod.classes.values():
+                aliased = {}
+                for mname, fn in c.methods.items():
+                    for n in ast.walk(fn):
+                        if isinstance(n, ast.Assign) and len(n.targets) == 1 and isinstance(n.targets[0], ast.Attribute) and isinstance(n.targets[0].value, ast.Name) \
+                                and n.targets[0].value.id == 'self':
+                            v = n.value
+                            base = v
+                            while isinstance(base, ast.Subscript):
+                                base = base.value
+                            if isinstance(base, ast.Name) and base.id in shared2 and (v is base or isinstance(v, ast.Subscript)):
+                                aliased[n.targets[0].attr] = (base.id, n, mname)
+                for attr, (const, node, mname) in aliased.items():
+                    muts = []
+                    for k in [k for m2 in repo.modules.values() for k in m2.classes.values() if c in repo.mro(k)]:
+                        for wname, wfn in k.methods.items():
+                            for a_, wnode in writers_of(wfn, {attr}):
+                                if isinstance(wnode, ast.Assign) and any(isinstance(t, ast.Attribute) and t.attr == attr for t in wnode.targets):
+                                    continue        # re-binding, not in-place mutation
+                                if isinstance(wnode, ast.AnnAssign) and isinstance(wnode.target, ast.Attribute) and wnode.target.attr == attr:
+                                    continue
+                                muts.append((k.name, wname, wnode))
+                    if muts:
+                        k_, w_, wn = muts[0]
+                        chk.fail(rule, repo.where(mod, node), f'{c.name}.{mname}', f'`self.{attr}` aliases module-level `{const}` and is mutated in place',
+                                 f'`{ast.unparse(node)[:70]}` makes `self.{attr}` a view of the module-level `{const}` (no copy), and `{ast.unparse(wn)[:50]}` in {k_}.{w_} '
+                                 f'then writes into it: every {c.name} object that takes the same row shares those writes (two auctions alive at the same last bid corrupt '
+                                 f'each other\'s double / redouble slots), and the table itself is spoilt for later boards')
+        # ---- M7: lazily built module-level table published before it is complete ----------------------------------------------------------
+        for m, c, fn in repo.all_functions():
+            if m is not mod:
+                continue
+            qual = f'{c.name}.{fn.name}' if c is not None else f'{rel}:{fn.name}'
+            globs = {n_ for st in ast.walk(fn) if isinstance(st, ast.Global) for n_ in st.names}
+            for g in globs:
+                for n in ast.walk(fn):
+                    if isinstance(n, ast.If) and any(isinstance(x, ast.Name) and x.id == g for x in ast.walk(n.test)):
+                        assigns = [i for i, st in enumerate(n.body) if isinstance(st, ast.Assign) and any(isinstance(t, ast.Name) and t.id == g for t in st.targets)]
+                        if not assigns:
+                            continue
+                        later = n.body[assigns[0] + 1:]
+                        fills = [x for st in later for x in ast.walk(st)
+                                 if (isinstance(x, ast.Assign) and any(isinstance(t, ast.Subscript) and isinstance(t.value, ast.Name) and t.value.id == g for t in x.targets))
+                                 or (isinstance(x, ast.Call) and isinstance(x.func, ast.Attribute) and x.func.attr in MUTATOR_METHODS and isinstance(x.func.value, ast.Name)
+                                     and x.func.value.id == g)]
+                        if fills:
+                            chk.fail(rule, repo.where(m, n.body[assigns[0]]), qual, f'module-level `{g}` published before it is filled',
+                                     f'`{ast.unparse(n.body[assigns[0]])}` makes the table visible (the `{ast.unparse(n.test)}` test of other threads now fails) before '
+                                     f'`{ast.unparse(fills[0])[:50]}` has filled it: a thread that converts a text while another thread is inside the first call sees a '
+                                     f'partial table and raises KeyError for a valid text - the server converts calls from five threads')
         # ---- M3: mutable default arguments mutated in the body ------------------------------------------------------------------
         for m, c, fn in repo.all_functions():
             if m is not mod:
